@@ -115,7 +115,7 @@ TEXT = {
               'Kani complete harnesses (full symbolic pre-state, loop-free) on the real code', 'DESIGN.md 8 C16'),
     'C17': _t('Verus proves on the real 200-line classify (four loops, four hash maps, any number of links, distinct ids): never weak while disconnected; under 100 kbit/s total (float sum as the code adds it) or with no connected link '
               'everything is Bypassed/not weak and all history cleared; a delay verdict needs the streak to have been >= 1 before and >= 2 after; streak/probation follow the exact step relation (<= 14 stored, 15th verdict arms exactly 3 not-weak ticks); '
-              'enter threshold 250/n, leave threshold 750/n, LowShare only below the threshold, leaving only at >= 750/n.',
+              'enter threshold 250/n, leave threshold 750/n, LowShare only below the threshold, leaving only at >= 750/n. Verus (unit ccglue, the controller as an opaque type): LinkCcController::tick_all feeds each controller the link\'s own smoothed RTT and only when it is positive, drops the controllers of links that disappeared, and leaves every listed link with a controller and a snapshot.',
               COMMON_NOTE + ' Floats (bitrate shares, RTT) are uninterpreted: what total_bps numerically is stays unproved.',
               'deductive verification (Verus) of the extracted real function with loop invariants over four maps', 'DESIGN.md 8 C17'),
 
